@@ -82,7 +82,11 @@ func newC18World(l c18Layout) (*c18World, error) {
 				}
 				w.mrs[parts[0]] = mr
 			}
-			oc.RedisSessionStoreConfig = &oidcv1.RedisConfig{ServerUri: "redis://" + mr.Addr() + "/" + parts[1]}
+			uri := "redis://" + mr.Addr() + "/" + parts[1]
+			if parts[1] == "" {
+				uri = "redis://" + mr.Addr() // the same database 0, spelled without the path
+			}
+			oc.RedisSessionStoreConfig = &oidcv1.RedisConfig{ServerUri: uri}
 		}
 		w.ocs = append(w.ocs, oc)
 		chain := f.Chain
@@ -204,7 +208,16 @@ func (w *c18World) loginAt(l c18Layout, i int) (string, error) {
 	return cs[0].Value, nil
 }
 
-func sameStoreExpected(a, b c18Filter) bool { return a.Redis == b.Redis }
+// the same keyspace: equal Redis database ("r1/" is database 0 of r1 spelled without the path), or both in memory
+func sameStoreExpected(a, b c18Filter) bool {
+	norm := func(s string) string {
+		if strings.HasSuffix(s, "/") {
+			return s + "0"
+		}
+		return s
+	}
+	return norm(a.Redis) == norm(b.Redis)
+}
 
 // ownKeySets: several filters served by ONE key provider (as cmd/main.go wires it), each configured with the key set
 // of its own identity provider only - all inline, all fetched, mixed - and logins at them in every order. A login
@@ -254,6 +267,7 @@ func runC18(r *Run) {
 		{Name: "memory with a timeout, then redis without", Filters: []c18Filter{{Name: "a", Prefix: "pa", ClientID: "client-a", Abs: 100}, {Name: "b", Prefix: "pb", ClientID: "client-b", Redis: "r1/0"}}},
 		{Name: "default cookie name and a prefixed filter, shared memory store", Filters: []c18Filter{{Name: "a", Prefix: "", ClientID: "client-a"}, {Name: "b", Prefix: "pb", ClientID: "client-b"}}},
 		{Name: "default cookie name and a prefixed filter, one redis database", Filters: []c18Filter{{Name: "a", Prefix: "", ClientID: "client-a", Redis: "r1/0"}, {Name: "b", Prefix: "pb", ClientID: "client-b", Redis: "r1/0"}}},
+		{Name: "one redis database under two spellings of its URL, different timeouts", Filters: []c18Filter{{Name: "a", Prefix: "pa", ClientID: "client-a", Redis: "r1/0", Abs: 100}, {Name: "b", Prefix: "pb", ClientID: "client-b", Redis: "r1/", Abs: 7}}},
 		{Name: "same prefix, disjoint stores", Filters: []c18Filter{{Name: "a", Prefix: "p", ClientID: "client-a", Redis: "r1/0"}, {Name: "b", Prefix: "p", ClientID: "client-b", Redis: "r2/0"}}},
 	}
 	ownKeySets(r, "[C18]")
